@@ -47,6 +47,10 @@ Act(sym) ==
     [] sym = "W3" -> [op |-> "withdraw", acct |-> "A3", bank |-> "B2", amount |-> 1, signer |-> "liquidator"]
     [] sym = "R3" -> [op |-> "repay", acct |-> "A3", bank |-> "B1", amount |-> 100, signer |-> "liquidator"]
     [] sym = "START4" -> [op |-> "start_liq", acct |-> "A4", receiver |-> "liquidator"]
+    \* the same instructions with a byte trailing their (empty) argument list: still a start / an end
+    [] sym = "PSTART3" -> [op |-> "start_liq", acct |-> "A3", receiver |-> "liquidator", pad |-> 1]
+    [] sym = "PSTART4" -> [op |-> "start_liq", acct |-> "A4", receiver |-> "liquidator", pad |-> 1]
+    [] sym = "PEND3" -> [op |-> "end_liq", acct |-> "A3", receiver |-> "liquidator", pad |-> 3]
     [] sym = "END4" -> [op |-> "end_liq", acct |-> "A4", receiver |-> "liquidator"]
     [] sym = "W4" -> [op |-> "withdraw", acct |-> "A4", bank |-> "B3", amount |-> 1, signer |-> "liquidator"]
     [] sym = "R4" -> [op |-> "repay", acct |-> "A4", bank |-> "B1", amount |-> 100, signer |-> "liquidator"]
@@ -68,10 +72,10 @@ Act(sym) ==
     [] sym = "LIQ3" -> [op |-> "liquidate", liquidator |-> "A1", liquidatee |-> "A3", asset_bank |-> "B2", liab_bank |-> "B1", amount |-> 1000]
     [] sym = "DEPBIG3" -> [op |-> "deposit", acct |-> "A3", bank |-> "B2", amount |-> 1000000000]
 
-IsStart(sym) == sym \in {"START3", "START2", "START4"}
-IsEnd(sym) == sym \in {"END3", "END2", "END4"}
+IsStart(sym) == sym \in {"START3", "START2", "START4", "PSTART3", "PSTART4"}
+IsEnd(sym) == sym \in {"END3", "END2", "END4", "PEND3"}
 \* the account a receivership symbol acts on (A3 and A4 are unhealthy and have a liquidation record; A2 is healthy)
-SymAcct(sym) == IF sym \in {"START4", "END4", "W4", "R4"} THEN "A4" ELSE IF sym \in {"START2", "END2"} THEN "A2" ELSE "A3"
+SymAcct(sym) == IF sym \in {"START4", "END4", "W4", "R4", "PSTART4"} THEN "A4" ELSE IF sym \in {"START2", "END2"} THEN "A2" ELSE "A3"
 RecvAccts == {"A3", "A4"}
 IsCpiSym(sym) == sym \in {"CSTART3", "CEND3", "CSFL2", "CEFL2"}
 VenueSyms == {"KREF", "DREF", "KOTH", "JREF"}
@@ -101,12 +105,12 @@ Step(L, i, s) ==
   LET sym == L[i] IN
   CASE sym \in {"CB", "JUP", "UNK", "DEP1", "EFL1", "EFL1X2"} \cup VenueSyms -> s
     [] sym = "INITREC" -> IF s.rec6 THEN Fail(s) ELSE [s EXCEPT !.rec6 = TRUE]
-    [] sym \in {"START3", "START4"} ->
+    [] sym \in {"START3", "START4", "PSTART3", "PSTART4"} ->
          LET a == SymAcct(sym) IN
          IF a \in s.recv \/ (a = "A3" /\ (s.fl3 \/ s.healthy3)) \/ ~ValidateStart(L, i) THEN Fail(s)
          ELSE [s EXCEPT !.recv = @ \cup {a}, !.nW[a] = 0, !.nR[a] = 0]
     [] sym = "START2" -> Fail(s)                                  \* A2 is healthy (and can only be unhealthy inside its own flash loan)
-    [] sym \in {"END3", "END4"} ->
+    [] sym \in {"END3", "END4", "PEND3"} ->
          LET a == SymAcct(sym) IN
          IF a \in s.recv /\ (s.nW[a] = 0 \/ s.nR[a] >= 1) THEN [s EXCEPT !.recv = @ \ {a}] ELSE Fail(s)
     [] sym = "END2" -> Fail(s)
@@ -142,7 +146,7 @@ ShapeOk(L) ==
          LET i == CHOOSE x \in DOMAIN L : IsStart(L[x]) IN
          /\ \A k \in DOMAIN L : (IsStart(L[k]) => k = i)
          /\ \A k \in 1..(i - 1) : L[k] \in {"CB", "INITREC", "KREF", "DREF"}
-         /\ L[i] \in {"START3", "START4"} /\ IsEnd(L[Len(L)]) /\ SymAcct(L[Len(L)]) = SymAcct(L[i])
+         /\ L[i] \in {"START3", "START4", "PSTART3", "PSTART4"} /\ IsEnd(L[Len(L)]) /\ SymAcct(L[Len(L)]) = SymAcct(L[i])
          /\ \A k \in (i + 1)..(Len(L) - 1) : L[k] \in ({"CB", "JUP", "INITREC"} \cup VenueSyms) \/ (L[k] \in {"W3", "R3", "W4", "R4"} /\ SymAcct(L[k]) = SymAcct(L[i]))
     /\ \A k \in DOMAIN L : IsSfl2(L[k]) => (SflIdx(L[k]) + 1 > k /\ L[SflIdx(L[k]) + 1] = "EFL2")
 
